@@ -2,6 +2,6 @@ From Coq Require Import Extraction ExtrOcamlBasic.
 From HQ Require Import Base.Prelude Alloc.Model Alloc.Spec.
 Extraction Language OCaml.
 Extraction "/verif/ocaml/alloc/gen/alloc_model.ml" step run init allocator_new label_of
-  exclusive_ok sum_bound_ok exact_amount_ok all_entries_free transfer_ok conserved_ok pools_equiv mirror_ok
+  exclusive_ok sum_bound_ok exact_amount_ok exact_amount_set_ok all_entries_free transfer_ok conserved_ok pools_equiv mirror_ok
   request_fits weights_apply group_count_ok scatter_ok compact_even_ok tight_ok min_fraction_ok answer_optimal coupled_entries
   concise_state min_groups pool_per_group groups_used is_coupled is_forced.
